@@ -305,6 +305,9 @@ Ref(t, o) ==
       [] o.op = "owrite_p"       -> OWriteRef(t, o.p, o.c, FALSE, FALSE, FALSE, FALSE)  \* write only
       [] o.op = "oopen"          -> OOpenRef(t, o.p, o.c, o.f)
       [] o.op = "read"           -> ReadRef(t, o.p)
+      \* text-returning whole-file operations (fs::read_to_string, File::read_to_string): generated only on
+      \* files whose content is valid UTF-8; Ok(text) with text == content
+      [] o.op \in {"read_string", "fread_string"} -> ReadRef(t, o.p)
       \* fs::read of a file OUTSIDE the tree whose read(2) calls come back short (o.c = what the observer read)
       [] o.op = "read_x"         -> R("ok", t, o.c)
       [] o.op = "copy"           -> CopyRef(t, o.p, o.q)
@@ -339,6 +342,7 @@ ListingOk(v, L) ==          \* v: sequence of <<name, kind>>; every child exactl
 ValueOk(o, ref, v) ==
     CASE o.op = "read"     -> v = ref.v
       [] o.op = "read_x"   -> v = ref.v
+      [] o.op \in {"read_string", "fread_string"} -> v = ref.v
       [] o.op = "oopen"    -> v = ref.v
       [] o.op = "exists"   -> v = ref.v
       [] o.op = "metadata" -> v.dir = ref.v.dir /\ v.file = ref.v.file /\ (ref.v.file => v.len = ref.v.len)
